@@ -358,6 +358,8 @@ var cpClasses = [][]rune{
 	{0xfffd},
 	{0xd7ff, 0xe000, 0xfffe, 0xffff}, // surrogate-adjacent, noncharacters
 	{0x10000, 0x1f600, 0x10ffff, 0xe0001}, // astral
+	{0x10a, 0x20a, 0x200a, 0x4e0a, 0x10d, 0x122, 0x15c, 0x12c, 0x13a, 0x15b, 0x15d, 0x17b, 0x17d, 0x120, 0x109, 0x2022, 0x205c, 0x1005c, 0x1000a}, // low byte (or low 16 bits) is a structural ASCII character
+	{0x0b, 0x0c, 0x85, 0xa0, 0x1680, 0x2000, 0x2003, 0x2028, 0x2029, 0x202f, 0x205f, 0x3000, 0xfeff, 0x200b}, // unicode.IsSpace beyond JSON's four (and two look-alikes that are not)
 	{0x378, 0x30000, 0xeffff},        // unassigned
 	{'a', 'b', 'z', 'A', '0', '9', ' ', '.', '#', ':', ',', '[', ']', '{', '}', 'é', 'ß', '中', 'u', 'n', 't', '%', 's', 'd', 'v', '<', '>', '&', '\'', '`'},
 }
@@ -412,6 +414,7 @@ type TreeOpts struct {
 	Floats       func(*R) float64
 	Str          func(*R) string
 	Key          func(*R) string
+	Stress       bool // now and then a shape of stressTree instead of a random tree
 }
 
 func (r *R) scalar(o *TreeOpts) *V {
@@ -465,7 +468,82 @@ func (o *TreeOpts) sized() *TreeOpts {
 	return o
 }
 
+// shapes at the sizes where implementations typically switch strategy (8, 16, 32, 64, 128, 256, 1024): deep chains,
+// long lists with containers in the tail, wide objects, long strings
+var stressSizes = []int{9, 15, 16, 17, 31, 33, 64, 65, 127, 128, 129, 130, 131, 255, 257}
+
+func (r *R) stressTree(o *TreeOpts, wantObj bool) *V {
+	var v *V
+	switch r.Intn(4) {
+	case 0: // deep chain, list and object levels mixed, a few siblings on the way
+		d := pickOf(r, []int{17, 33, 34, 40, 65, 100, 129})
+		v = r.scalar(o)
+		for i := 0; i < d; i++ {
+			if r.chance(0.5) {
+				l := vlist(v)
+				if r.chance(0.2) {
+					l.L = append(l.L, r.scalar(o))
+				}
+				v = l
+			} else {
+				ob := vobj(KV{pickOf(r, []string{"a", "k", "", "x y"}), v})
+				if r.chance(0.2) {
+					ob.O = append(ob.O, KV{"sib", r.scalar(o)})
+				}
+				v = ob
+			}
+		}
+	case 1: // long list, containers sprinkled in, always some in the last three positions
+		n := pickOf(r, stressSizes)
+		l := &V{K: KList}
+		for i := 0; i < n; i++ {
+			if r.chance(0.06) || (i >= n-3 && r.chance(0.6)) {
+				l.L = append(l.L, r.tree(o, 2))
+			} else {
+				l.L = append(l.L, r.scalar(o))
+			}
+		}
+		v = l
+	case 2: // wide object
+		n := pickOf(r, stressSizes)
+		ob := &V{K: KObj}
+		for i := 0; i < n; i++ {
+			if i >= n-2 && r.chance(0.5) {
+				ob.O = append(ob.O, KV{fmt.Sprintf("k%d", i), r.tree(o, 2)})
+			} else {
+				ob.O = append(ob.O, KV{fmt.Sprintf("k%d", i), r.scalar(o)})
+			}
+		}
+		v = ob
+	default: // long strings as value and key
+		n := pickOf(r, []int{17, 33, 64, 65, 129, 257, 1025})
+		var b strings.Builder
+		for i := 0; i < n; i++ {
+			if r.chance(0.9) {
+				b.WriteByte(byte('a' + i%26))
+			} else {
+				b.WriteString(o.Str(r))
+			}
+		}
+		s := b.String()
+		v = vlist(vstr(s), vobj(KV{s, vstr(s)}))
+	}
+	if wantObj && v.K != KObj {
+		return vobj(KV{"root", v})
+	}
+	if !wantObj && v.K != KList {
+		return vlist(v)
+	}
+	return v
+}
+
+// stressShare: how often a generated container is one of the stress shapes
+var stressShare = 0.025
+
 func (r *R) listTree(o *TreeOpts) *V {
+	if o.Stress && r.chance(stressShare) {
+		return r.stressTree(o, false)
+	}
 	o = o.sized()
 	n := r.Intn(o.Width + 1)
 	l := &V{K: KList}
@@ -476,6 +554,9 @@ func (r *R) listTree(o *TreeOpts) *V {
 }
 
 func (r *R) objTree(o *TreeOpts) *V {
+	if o.Stress && r.chance(stressShare) {
+		return r.stressTree(o, true)
+	}
 	o = o.sized()
 	n := r.Intn(o.Width + 1)
 	ob := &V{K: KObj}
